@@ -18,6 +18,7 @@ def dispatch (cmd : String) (args : List String) : String :=
   | "ENC" => ((encDp args).orElse fun _ => encCtl args).getD "BADARG"
   | "RT" => rt args
   | "BKD" => bkd args
+  | "BKDR" => bkdr args
   | "RUN" => runCmd args
   | "VM" => vmCmd args
   | "LOW" => lowCmd args
